@@ -368,6 +368,36 @@ func genKF(seed int64, allow map[string]bool) *Scenario {
 		hp.Inj = []Inj{{At: "g:open.cloned", Ops: []Op{{Op: "blind", Blind: []int64{4, 0, 0, 2, 4}}}}}
 		b.hand(hp)
 		b.hand(b.plan())
+	case allow["kf-open-window"]:
+		// a lock-free call lands between the clone and the swap of tableGameOpen: the swap overwrites it
+		b.sc.N = 3 + r.Intn(4)
+		for i := 0; i < 2; i++ {
+			id := b.newID()
+			b.add(Op{Op: "reserve", ID: id, Seat: -1, Chips: 30 + int64(r.Intn(20))})
+			b.add(Op{Op: "join", ID: id})
+		}
+		late := b.newID()
+		b.add(Op{Op: "reserve", ID: late, Seat: -1, Chips: 9})
+		b.add(Op{Op: "start"})
+		if r.Intn(2) == 0 {
+			b.hand(b.plan())
+		}
+		hp := b.plan()
+		var ops []Op
+		switch seed % 4 {
+		case 0:
+			ops = []Op{{Op: "redeem", ID: "p1", Chips: 1 + b.chips()}}
+		case 1:
+			ops = []Op{{Op: "join", ID: late}}
+			hp.Policy = "passive"
+		case 2:
+			ops = []Op{{Op: "close"}}
+		default:
+			ops = []Op{{Op: "release"}}
+		}
+		hp.Inj = []Inj{{At: "g:open.cloned", Ops: ops}}
+		b.hand(hp)
+		b.hand(b.plan())
 	case allow["kf-update-partial"]:
 		return genMembers(seed, allow)
 	case allow["kf-waiting-newcomer"]:
